@@ -444,9 +444,9 @@ func (fn *fileNode) truncate(size int64) {
 
 // symlinkNode
 
-// delete removes all information from the node.
+// delete has nothing to release : the target of a symbolic link never changes,
+// and path resolutions that reached the link before its removal still read it.
 func (sn *symlinkNode) delete() {
-	sn.link = ""
 }
 
 // fillStatFrom returns a MemInfo (implementation of fs.FileInfo) from a symlinkNode named name.
